@@ -56,6 +56,8 @@ var tokenBytes = map[string]string{
 	// literals
 	"lit0": "{0}\r\n", "lit3": "{3}\r\nabc", "litCRLF": "{2}\r\n\r\n", "litBig": "{5000}\r\n" + strings.Repeat("y", 5000),
 	"litHdr": "{18}\r\nSubject: hello\r\n\r\n", "litShort": "{100}\r\nabc",
+	// well-formed headers announcing far more than the stream holds (largest int64; 2^62)
+	"litMax": "{9223372036854775807}\r\nabc", "litHuge": "{4611686018427387904}\r\nabc",
 	// malformed literals
 	"litNoNum": "{}\r\n", "litNoCRLF": "{3}abc", "litOver": "{9223372036854775808}\r\nabc", "litNeg": "{-1}\r\n",
 	"litPlus": "{3+}\r\nabc", "litUnclosed": "{3\r\nabc", "litAlpha": "{x}\r\nabc",
